@@ -43,6 +43,18 @@ def _classes():
         def trigger(self, signal):
             return bool(np.max(np.abs(signal.values)) > 0.5)
 
+        # a "noise-only hit" (triggered, but not by Monte-Carlo truth) is modelled by a switch on the harness antenna: real
+        # noise would need owned randomness for nothing -- the detector only ever reads these two properties
+        noise_hit = False
+
+        @property
+        def is_hit(self):
+            return True if self.noise_hit else super().is_hit
+
+        @property
+        def is_hit_mc_truth(self):
+            return False if self.noise_hit else super().is_hit_mc_truth
+
     class Sys(AntennaSystem):
         def __init__(self, position):
             super().__init__(Ant)
@@ -280,14 +292,33 @@ def _one_tree(seq, shape, ops, use_sum, kw, fails, tag):
     else:
         patterns = [tuple(0 for _ in range(n))] + [tuple(int(i == j) for i in range(n)) for j in range(n)] + [tuple(1 for _ in range(n))]
     tkw = {k: v for k, v in kw.items() if k != "unknown"}
+    # third state 2 = noise-only hit (plain harness antennas only): every assignment for n <= 3, otherwise one noise-only hit
+    # ahead of / behind one genuine hit for every pair
+    plain = [isinstance(a, C["Ant"]) for a in ants]
+    if kw:
+        pass                # the noise-only state is explored once per expression (empty keyword set), not once per keyword set
+    elif n <= 3:
+        patterns += [q for q in itertools.product((0, 1, 2), repeat=n) if 2 in q and all(plain[i] for i, v in enumerate(q) if v == 2)]
+    else:
+        for i, j in itertools.permutations(range(n), 2):
+            if plain[i]:
+                patterns.append(tuple(2 if k == i else (1 if k == j else 0) for k in range(n)))
+    lineb_members = set()
+    for tgt in _trigger_targets(det, C):
+        if type(tgt).__name__ == "LineB":
+            lineb_members.update(id(a) for a in _walk(tgt, C))
     for pat in patterns:
         for a, h in zip(ants, pat):
             # every antenna receives something in every round: a triggering pulse or a sub-threshold one (what an antenna
             # decided in an earlier round, before clear(), must not decide this one)
-            _hit(a, C, strong=bool(h))
+            _hit(a, C, strong=(h == 1))
+            if plain[ants.index(a)]:
+                a.noise_hit = (h == 2)
         trans += 1
-        want = any(pat)
         for mc in (False, True):
+            # LineB's own trigger (harness class) is "any antenna hit" whatever require_mc_truth says; everything else follows
+            # the documented default
+            want = any((h == 1) or (h == 2 and (not mc or id(a) in lineb_members)) for a, h in zip(ants, pat))
             for s in subs:
                 s.got_trigger = None
             try:
@@ -312,6 +343,9 @@ def _one_tree(seq, shape, ops, use_sum, kw, fails, tag):
         hits = [bool(a.is_hit) for a in ants]
         if hits != [bool(h) for h in pat]:
             fail("hit-pattern", "is_hit %s after hitting pattern %s" % (hits, pat))
+        for a in ants:
+            if isinstance(a, C["Ant"]):
+                a.noise_hit = False
         det.clear()
         trans += 1
         if not all(_is_empty(a) for a in ants):
